@@ -88,6 +88,31 @@ func TestVerifBabeMath(t *testing.T) {
 		w.Write(b)
 		w.WriteByte('\n')
 	}
+	// before anything else has been computed in this process: fixed inputs, then saturated thresholds, then the same
+	// inputs again (a value computed once and kept -- a constant, a memo -- must not depend on what was asked before)
+	{
+		fixed := [][3]uint64{{1, 2, 3}, {1, 4, 1}, {3, 7, 5}, {1, 2, 2}}
+		var first []*big.Int
+		for _, x := range fixed {
+			thr, err := CalculateThreshold(x[0], x[1], int(x[2]))
+			if err != nil {
+				t.Fatalf("VERIF-INFRA CalculateThreshold%v: %v", x, err)
+			}
+			first = append(first, vbmU128(thr))
+		}
+		for _, x := range [][3]uint64{{1, 1, 1}, {5, 5, 3}, {1, 2, 0}} {
+			_, _ = CalculateThreshold(x[0], x[1], int(x[2]))
+		}
+		for i := len(fixed) - 1; i >= 0; i-- {
+			x := fixed[i]
+			thr, err := CalculateThreshold(x[0], x[1], int(x[2]))
+			res.Case("thr-order", fmt.Sprint(x))
+			res.Cmp()
+			if err != nil || vbmU128(thr).Cmp(first[i]) != 0 {
+				res.Fail(-1, i, "thr", "repeat", first[i].String(), fmt.Sprintf("%v err=%v", thr, err), "C25/thr/c<1/not-a-function-of-its-arguments", map[string]any{"c1": x[0], "c2": x[1], "n": x[2]})
+			}
+		}
+	}
 	lines := 0
 	for _, b := range behs {
 		emit(vbmLine{Ev: "reset"})
@@ -117,6 +142,24 @@ func TestVerifBabeMath(t *testing.T) {
 					continue
 				}
 				T := vbmU128(thr)
+				// the threshold is a FUNCTION of (c1, c2, n): ask again after a saturated one (c = 1), after the same c
+				// with another authority count, and once more; bit-exact agreement, whatever the tolerance of the
+				// numeric bracket TLC checks on the logged value
+				var again *scale.Uint128
+				pm = vTry(func() {
+					_, _ = CalculateThreshold(o.C2, o.C2, o.N)
+					_, _ = CalculateThreshold(o.C1, o.C2, o.N+1)
+					_, _ = CalculateThreshold(1, 1, 1)
+					again, cerr = CalculateThreshold(o.C1, o.C2, o.N)
+				})
+				res.Cmp()
+				if pm != "" || cerr != nil || again == nil || vbmU128(again).Cmp(T) != 0 {
+					got := "?"
+					if again != nil {
+						got = vbmU128(again).String()
+					}
+					res.Fail(b.ID, si, "thr", "repeat", T.String(), fmt.Sprintf("%s err=%v %s", got, cerr, pm), "C25/thr/"+cls+"/not-a-function-of-its-arguments", []json.RawMessage{raw})
+				}
 				if lines < 40 {
 					res.Sample(map[string]any{"c1": o.C1, "c2": o.C2, "n": o.N, "threshold": T.String()})
 				}
